@@ -4007,7 +4007,7 @@ async fn run_rtp_direct_loop(
                             false
                         }
                     });
-                    let _ = inner.peer_state.send(PeerConnectionState::Failed);
+                    inner.set_peer_state(PeerConnectionState::Failed);
                 }
                 return;
             }
@@ -4166,7 +4166,7 @@ async fn run_ice_dtls_loop(
                             false
                         }
                     });
-                    let _ = inner.peer_state.send(PeerConnectionState::Failed);
+                    inner.set_peer_state(PeerConnectionState::Failed);
                 }
                 return;
             }
@@ -4262,11 +4262,14 @@ async fn handle_connected_state_no_dtls(
                         false
                     }
                 });
-                let _ = inner.peer_state.send(PeerConnectionState::Failed);
+                inner.set_peer_state(PeerConnectionState::Failed);
                 return false;
             }
             Ok(mut rtcp_loop) => {
-                let _ = inner.peer_state.send(PeerConnectionState::Connected);
+                if !inner.set_peer_state(PeerConnectionState::Connected) {
+                    // close() ran while the transport was starting: stay Closed, stop driving.
+                    return false;
+                }
                 let grace = inner.config.ice_disconnect_grace;
                 drop(inner);
                 // `pc_temp` is a second strong handle: keeping it across the loop would stop
@@ -4293,7 +4296,7 @@ async fn handle_connected_state_no_dtls(
                             match new_state {
                                 crate::transports::ice::IceTransportState::Disconnected => {
                                     if let Some(inner) = inner_weak.upgrade() {
-                                        let _ = inner.peer_state.send(PeerConnectionState::Disconnected);
+                                        inner.set_peer_state(PeerConnectionState::Disconnected);
                                     }
                                     let epoch = disconnect_epoch;
                                     let tx = grace_tx.clone();
@@ -4310,7 +4313,7 @@ async fn handle_connected_state_no_dtls(
                                 | crate::transports::ice::IceTransportState::Completed => {
                                     disconnect_epoch += 1;
                                     if let Some(inner) = inner_weak.upgrade() {
-                                        let _ = inner.peer_state.send(PeerConnectionState::Connected);
+                                        inner.set_peer_state(PeerConnectionState::Connected);
                                     }
                                     debug!("ICE recovered (epoch {}), grace cancelled", disconnect_epoch);
                                 }
@@ -4328,7 +4331,7 @@ async fn handle_connected_state_no_dtls(
                                             false
                                         }
                                     });
-                                    let _ = inner.peer_state.send(PeerConnectionState::Disconnected);
+                                    inner.set_peer_state(PeerConnectionState::Disconnected);
                                     if let Some(sctp) = inner.sctp_transport.lock().as_ref() {
                                         sctp.close();
                                     }
@@ -4371,11 +4374,14 @@ async fn handle_connected_state(
                                 false
                             }
                         });
-                        let _ = inner.peer_state.send(PeerConnectionState::Failed);
+                        inner.set_peer_state(PeerConnectionState::Failed);
                         return false;
                     }
                     Ok(mut rtcp_loop) => {
-                        let _ = inner.peer_state.send(PeerConnectionState::Connected);
+                        if !inner.set_peer_state(PeerConnectionState::Connected) {
+                            // close() ran while DTLS was starting: stay Closed, stop driving.
+                            return false;
+                        }
 
                         let dtls_state_rx = {
                             let dtls_guard = inner.dtls_transport.lock();
@@ -4400,7 +4406,7 @@ async fn handle_connected_state(
                                         }
                                         match new_state {
                                             crate::transports::ice::IceTransportState::Disconnected => {
-                                                let _ = inner.peer_state.send(PeerConnectionState::Disconnected);
+                                                inner.set_peer_state(PeerConnectionState::Disconnected);
                                                 let _ = ice_connection_state_tx.send(IceConnectionState::Disconnected);
                                                 let epoch = disconnect_epoch;
                                                 let tx = grace_tx.clone();
@@ -4416,7 +4422,7 @@ async fn handle_connected_state(
                                             crate::transports::ice::IceTransportState::Connected
                                             | crate::transports::ice::IceTransportState::Completed => {
                                                 disconnect_epoch += 1;
-                                                let _ = inner.peer_state.send(PeerConnectionState::Connected);
+                                                inner.set_peer_state(PeerConnectionState::Connected);
                                                 let _ = ice_connection_state_tx.send(IceConnectionState::Connected);
                                                 debug!("ICE recovered (epoch {}), grace cancelled", disconnect_epoch);
                                             }
@@ -4436,7 +4442,7 @@ async fn handle_connected_state(
                                                 let _ = inner.disconnect_reason.send_if_modified(|cur| {
                                                     if cur.is_none() { *cur = Some(reason); true } else { false }
                                                 });
-                                                let _ = inner.peer_state.send(PeerConnectionState::Disconnected);
+                                                inner.set_peer_state(PeerConnectionState::Disconnected);
                                                 let _ = ice_connection_state_tx.send(IceConnectionState::Disconnected);
                                                 return false;
                                             }
@@ -4454,7 +4460,7 @@ async fn handle_connected_state(
                                                     false
                                                 }
                                             });
-                                            let _ = inner.peer_state.send(PeerConnectionState::Disconnected);
+                                            inner.set_peer_state(PeerConnectionState::Disconnected);
                                             let _ = ice_connection_state_tx.send(IceConnectionState::Disconnected);
                                             if let Some(sctp) = inner.sctp_transport.lock().as_ref() {
                                                 sctp.close();
@@ -4483,7 +4489,7 @@ async fn handle_connected_state(
                                         }
                                         match new_state {
                                             crate::transports::ice::IceTransportState::Disconnected => {
-                                                let _ = inner.peer_state.send(PeerConnectionState::Disconnected);
+                                                inner.set_peer_state(PeerConnectionState::Disconnected);
                                                 let _ = ice_connection_state_tx.send(IceConnectionState::Disconnected);
                                                 let epoch = disconnect_epoch;
                                                 let tx = grace_tx.clone();
@@ -4499,7 +4505,7 @@ async fn handle_connected_state(
                                             crate::transports::ice::IceTransportState::Connected
                                             | crate::transports::ice::IceTransportState::Completed => {
                                                 disconnect_epoch += 1;
-                                                let _ = inner.peer_state.send(PeerConnectionState::Connected);
+                                                inner.set_peer_state(PeerConnectionState::Connected);
                                                 let _ = ice_connection_state_tx.send(IceConnectionState::Connected);
                                                 debug!("ICE recovered (epoch {}), grace cancelled", disconnect_epoch);
                                             }
@@ -4516,7 +4522,7 @@ async fn handle_connected_state(
                                                     false
                                                 }
                                             });
-                                            let _ = inner.peer_state.send(PeerConnectionState::Disconnected);
+                                            inner.set_peer_state(PeerConnectionState::Disconnected);
                                             let _ = ice_connection_state_tx.send(IceConnectionState::Disconnected);
                                             if let Some(sctp) = inner.sctp_transport.lock().as_ref() {
                                                 sctp.close();
@@ -4572,6 +4578,25 @@ fn is_ice_failed_or_closed(state: crate::transports::ice::IceTransportState) -> 
 }
 
 impl PeerConnectionInner {
+    /// Peer-state write of the driving loops. `Closed` is final: `close()` runs on the
+    /// application's thread concurrently with the loops, which must not overwrite it with
+    /// `Connected` / `Disconnected` / `Failed`. Returns `false` when the connection is closed.
+    fn set_peer_state(&self, new: PeerConnectionState) -> bool {
+        let mut closed = false;
+        self.peer_state.send_if_modified(|state| {
+            if *state == PeerConnectionState::Closed {
+                closed = true;
+                false
+            } else if *state == new {
+                false
+            } else {
+                *state = new;
+                true
+            }
+        });
+        !closed
+    }
+
     /// Track a spawned task so it can be aborted on close. Only meant for
     /// fire-and-forget tasks whose lifetime should be bounded by the connection.
     fn track_task(&self, handle: tokio::task::JoinHandle<()>) {
